@@ -333,6 +333,9 @@ func C04(x *Ctx) {
 			x.Stats.Add("C04.streams_slid_2x", 1)
 		}
 	}
+	// all streams are cut at the same instants: as soon as one stream serves its playlist, every
+	// other stream of the muxer serves one too (a request for it no longer waits for content)
+	crossAvailability(x)
 	// all streams agree within a round
 	for _, r := range h.Rounds {
 		ref, refID := "", ""
@@ -448,4 +451,37 @@ func C05(x *Ctx) {
 		}
 	}
 	_ = muxrun.Watchdog
+}
+
+// crossAvailability: in a round in which some stream's media playlist is served, a stream whose
+// request is still parked (waiting for first content) two rounds later has been left behind.
+func crossAvailability(x *Ctx) {
+	h := x.H
+	if len(h.StreamIDs) < 2 {
+		return
+	}
+	firstServed := -1
+	for ri, r := range h.Rounds {
+		for _, id := range h.StreamIDs {
+			if so := r.Streams[id]; so != nil && so.PL != nil && so.PL.Media != nil && firstServed < 0 {
+				firstServed = ri
+			}
+		}
+	}
+	if firstServed < 0 {
+		return
+	}
+	x.Stats.Add(x.prop+".stream_availability_checked", 1)
+	for _, id := range h.StreamIDs {
+		last := h.Rounds[len(h.Rounds)-1].Streams[id]
+		served := false
+		for _, r := range h.Rounds {
+			if so := r.Streams[id]; so != nil && so.PL != nil && so.PL.Media != nil {
+				served = true
+			}
+		}
+		if !served && len(h.Rounds)-firstServed > 3 && (last == nil || last.Parked || last.PL == nil) {
+			x.fail("cross-stream", "stream-never-served", "another stream serves its media playlist since round %d, but %s_stream.m3u8 was still waiting for content at the end (round %d): its segments were never published", h.Rounds[firstServed].N, id, h.Rounds[len(h.Rounds)-1].N)
+		}
+	}
 }
